@@ -1,5 +1,6 @@
 Require Extraction.
 Require Import ExtrOcamlBasic.
-From HV Require Import Text.HumanText.
+From HV Require Import Text.HumanText Text.PyLiteral.
 Extraction Language OCaml.
-Extraction "c11_model.ml" from_human to_human prep header expr_match block_name repl_match uuid_match vec_parts is_space is_word.
+Extraction "c11_model.ml" from_human to_human prep header expr_match block_name repl_match uuid_match vec_parts is_space is_word
+  render_val read_lit c_present strip wf_val.
